@@ -193,6 +193,31 @@ func ruleMutCeiling(r *Run) {
 		}
 	}
 	stores := fieldStores(f, "repoT", "mutSavedID")
+	if put == nil && len(stores) > 0 {
+		// the encoding and the store write may sit in a helper (r.putSavedMutationID(store)): the helper encodes the
+		// field as it is when called, so the call has to lie behind the store that advances the ceiling
+		for _, c := range calls(f) {
+			g := staticCallee(c)
+			if g == nil || g == f || g.Pkg != f.Pkg || len(g.Blocks) == 0 || !putWritesFieldIn(g, "mutSavedID") {
+				continue
+			}
+			okH := false
+			for _, st := range stores {
+				if domInstr(st, c) {
+					okH = true
+				}
+			}
+			adv := false
+			for _, st := range stores {
+				if l := lin(st.Val, 0); l.ok && l.c >= 1 {
+					adv = true
+				}
+			}
+			r.check(okH && adv, "newMutationID:persisted-ceiling-is-the-advanced-one", "the ceiling is advanced by the stride first and that value is written to the store (through "+g.Name()+")",
+				"the value written to the store is the ceiling before it was advanced (or it is not advanced): ids of the current stride are not covered by the persisted ceiling and are handed out again after a restart", w.pos(c.Pos()))
+			return
+		}
+	}
 	if put == nil || len(stores) == 0 {
 		r.undecided("newMutationID:ceiling", "cannot find the encoding of the ceiling or the store that advances it")
 		return
